@@ -15,6 +15,7 @@ import (
 	"github.com/tidwall/geojson/geometry"
 	"pgregory.net/rapid"
 	"verifharness/fw"
+	"verifharness/gj"
 )
 
 type c16Op struct {
@@ -24,6 +25,7 @@ type c16Op struct {
 }
 
 type c16Case struct {
+	Docs   []string  `json:"docs,omitempty"` // further pool members parsed from generated documents (z/m ordinates, foreign members)
 	Specs  []objSpec `json:"specs"`
 	Parsed []int     `json:"parsed"` // 0 constructor, 1 Parse with indexes forced, 2 Parse without indexes
 	Ops    []c16Op   `json:"ops"`
@@ -48,6 +50,12 @@ func c16Pool(c *c16Case) []geojson.Object {
 			}
 		}
 		pool[i] = o
+	}
+	for i, d := range c.Docs {
+		opts := &geojson.ParseOptions{IndexChildren: i % 2, IndexGeometry: i % 2, IndexGeometryKind: geometry.QuadTree, AllowSimplePoints: i%3 == 0, AllowRects: i%3 == 1}
+		if o, err := geojson.Parse(d, opts); err == nil {
+			pool = append(pool, o)
+		}
 	}
 	return pool
 }
@@ -238,12 +246,23 @@ func c16Gen(t *rapid.T) c16Case {
 				s.Rings = [][]fpt{append(pts, pts[0])}
 			}
 		}
+		// polygons with many holes (slices with spare capacity)
+		if s.Kind == "Polygon" && !s.NilPoly && len(s.Rings) > 0 && rapid.IntRange(0, 2).Draw(t, "manyholes") == 0 {
+			for h := rapid.IntRange(3, 9).Draw(t, "nholes"); h > 0; h-- {
+				x, y := float64(rapid.IntRange(0, 5).Draw(t, "hx")), float64(rapid.IntRange(0, 5).Draw(t, "hy"))
+				s.Rings = append(s.Rings, []fpt{{F(x), F(y)}, {F(x + 1), F(y)}, {F(x), F(y + 1)}, {F(x), F(y)}})
+			}
+		}
 		c.Specs = append(c.Specs, s)
 		c.Parsed = append(c.Parsed, rapid.IntRange(0, 2).Draw(t, "parsed"))
 	}
+	for i := rapid.IntRange(2, 4).Draw(t, "ndocs"); i > 0; i-- {
+		c.Docs = append(c.Docs, gj.Doc(t, gj.Opts{MaxDepth: 2, Lattice: true, NoCircle: i%2 == 0}))
+	}
 	nops := rapid.IntRange(60, 200).Draw(t, "nops")
+	np := n + len(c.Docs)
 	for i := 0; i < nops; i++ {
-		c.Ops = append(c.Ops, c16Op{M: rapid.IntRange(0, c16Methods-1).Draw(t, "m"), Recv: rapid.IntRange(0, n-1).Draw(t, "recv"), Arg: rapid.IntRange(0, n-1).Draw(t, "arg")})
+		c.Ops = append(c.Ops, c16Op{M: rapid.IntRange(0, c16Methods-1).Draw(t, "m"), Recv: rapid.IntRange(0, np-1).Draw(t, "recv"), Arg: rapid.IntRange(0, np-1).Draw(t, "arg")})
 	}
 	return c
 }
